@@ -108,6 +108,60 @@ func c06DocEvents(text []byte) (evs []c06Event, term string) {
 	return rd.evs, rd.term
 }
 
+// c06Rewind: k NextLexeme calls on a document of valid JSON, then Len() or Check() on the same
+// object (both must succeed: the text is valid whatever was read before), then the document is
+// drained. What follows must be a complete stream of the text (the cursor was rewound) or the
+// exact continuation of the stream read so far (the cursor was kept) - nothing else.
+func c06Rewind(text []byte, k int, useLen bool) string {
+	solo, term := c06DocEvents(text)
+	if term != "eof" {
+		return ""
+	}
+	rd := c06NewReader(text)
+	for i := 0; i < k && rd.step(); i++ {
+	}
+	read := len(rd.evs)
+	var err error
+	pan := ""
+	func() {
+		defer func() {
+			if r := recover(); r != nil {
+				pan = fmt.Sprintf("panic: %v", r)
+			}
+		}()
+		if useLen {
+			_, err = rd.doc.Len()
+		} else {
+			err = rd.doc.Check()
+		}
+	}()
+	what := map[bool]string{true: "Len()", false: "Check()"}[useLen]
+	if pan != "" {
+		return fmt.Sprintf("%s after %d lexemes: %s", what, read, pan)
+	}
+	if err != nil {
+		return fmt.Sprintf("%s after %d lexemes of a valid text fails: %v", what, read, err)
+	}
+	rd.evs, rd.term, rd.n = nil, "", 0
+	for rd.step() {
+	}
+	same := func(a, b []c06Event) bool {
+		if len(a) != len(b) {
+			return false
+		}
+		for i := range a {
+			if a[i] != b[i] {
+				return false
+			}
+		}
+		return true
+	}
+	if rd.term == "eof" && (same(rd.evs, solo) || (read <= len(solo) && same(rd.evs, solo[read:]))) {
+		return ""
+	}
+	return fmt.Sprintf("after %d lexemes and %s the document delivers %d events ending with %q: neither the complete stream (%d events) nor the continuation", read, what, len(rd.evs), rd.term, len(solo))
+}
+
 // c06Lockstep reads several documents by turns (schedule[i] names the document advanced by the
 // i-th call; when the schedule is used up the documents are drained in order) and compares each
 // stream with the stream of the same text read alone.
@@ -373,12 +427,25 @@ const c06NoHook = "hook vh_scanevents unavailable: schema-scanner and enum-scann
 // c06Filter drops new-line events and, when dropAnnotations is set, annotation events.
 func c06Filter(evs []c06Event, dropAnnotations bool) []c06Event {
 	out := make([]c06Event, 0, len(evs))
+	inAnnotation := 0
 	for _, e := range evs {
 		if e.Type == "new-line" {
 			continue
 		}
-		if dropAnnotations && strings.Contains(e.Type, "annotation") {
-			continue
+		if dropAnnotations {
+			// everything from an annotation's begin to its end belongs to the annotation (rule
+			// objects and their literals included)
+			switch e.Type {
+			case "inline-annotation-begin", "multi-line-annotation-begin":
+				inAnnotation++
+				continue
+			case "inline-annotation-end", "multi-line-annotation-end":
+				inAnnotation--
+				continue
+			}
+			if inAnnotation > 0 || strings.Contains(e.Type, "annotation") {
+				continue
+			}
 		}
 		out = append(out, e)
 	}
@@ -446,7 +513,7 @@ func c06Embed(r *mon.Rng, root *refjson.Node, forEnum bool) []c06Insert {
 		points = append(points, n.End)
 	})
 	sort.Ints(points)
-	snippets := []string{" # c\n", "# {not: \"json\"} [1,\n", "\t#x\r\n", "   # \"quoted\" // not an annotation\n"}
+	snippets := []string{" # c\n", "# {not: \"json\"} [1,\n", "\t#x\r\n", "   # \"quoted\" // not an annotation\n", " #\n"}
 	if forEnum {
 		snippets = []string{" // c\n", "// \"x\", [1] {2}\n", "\t//x\r\n", " //   spaced out   \n"}
 	}
@@ -462,6 +529,88 @@ func c06Embed(r *mon.Rng, root *refjson.Node, forEnum bool) []c06Insert {
 		}
 	}
 	return chosen
+}
+
+// c06Pretty lays the JSON value out one member / item per line (source tokens unchanged) and
+// returns the offsets at which the schema notation allows an annotation (the end of a line
+// holding a scalar or an opening bracket, after the comma if any) and those where only a user
+// comment may follow (lines of closing brackets).
+func c06Pretty(text []byte, root *refjson.Node) (pretty []byte, annot, comment []int) {
+	var sb bytes.Buffer
+	var w func(n *refjson.Node, level int, comma bool)
+	w = func(n *refjson.Node, level int, comma bool) {
+		if !n.Kind.IsContainer() || len(n.Children) == 0 {
+			if n.Kind.IsContainer() {
+				sb.WriteString(map[bool]string{true: "{}", false: "[]"}[n.Kind == refjson.Object])
+			} else {
+				sb.Write(text[n.Begin:n.End])
+			}
+			if comma {
+				sb.WriteByte(',')
+			}
+			annot = append(annot, sb.Len())
+			sb.WriteByte('\n')
+			return
+		}
+		open, close := byte('['), byte(']')
+		if n.Kind == refjson.Object {
+			open, close = '{', '}'
+		}
+		sb.WriteByte(open)
+		annot = append(annot, sb.Len())
+		sb.WriteByte('\n')
+		for i, ch := range n.Children {
+			sb.WriteString(strings.Repeat("  ", level+1))
+			if n.Kind == refjson.Object {
+				sb.Write(text[n.Keys[i].Begin:n.Keys[i].End])
+				sb.WriteString(": ")
+			}
+			w(ch, level+1, i < len(n.Children)-1)
+		}
+		sb.WriteString(strings.Repeat("  ", level))
+		sb.WriteByte(close)
+		if comma {
+			sb.WriteByte(',')
+		}
+		comment = append(comment, sb.Len())
+		sb.WriteByte('\n')
+	}
+	w(root, 0, false)
+	return sb.Bytes(), annot, comment
+}
+
+var c06AnnotSnippets = []string{" // a note # a comment", " // note", " // {optional: false} - note # comment", " // {min: 1, type: \"integer\"}", " /* note */", " /* {or: [\"integer\", {type: \"string\"}]} - note */ # c",
+	" // {enum: [1, \"a\"]} -", " # c", " #"}
+
+// c06PrettyEmbedded: the pretty layout with annotations (rules and notes) and user comments at
+// the line ends where the notation allows them; the schema scanner's events outside the
+// annotations must be the document scanner's events for the pretty text.
+func c06PrettyEmbedded(r *mon.Rng, text []byte, root *refjson.Node) (c06Case, string) {
+	pretty, annot, comment := c06Pretty(text, root)
+	var ins []c06Insert
+	for _, p := range annot {
+		if r.Chance(1, 3) {
+			ins = append(ins, c06Insert{p, mon.Pick(r, c06AnnotSnippets)})
+		}
+	}
+	for _, p := range comment {
+		if r.Chance(1, 4) {
+			ins = append(ins, c06Insert{p, mon.Pick(r, []string{" # c", " #", "\t# } ]"})})
+		}
+	}
+	sort.Slice(ins, func(i, j int) bool { return ins[i].At < ins[j].At })
+	cs := c06Case{Hex: hex.EncodeToString(pretty), Text: strconv.Quote(string(pretty)), Scanner: "schema", Inserts: ins}
+	emb, pos := c06ApplyInserts(pretty, ins)
+	cs.Embedded = strconv.Quote(string(emb))
+	evs, term := c06DocEvents(pretty)
+	if term != "eof" {
+		return cs, "" // the pretty text is judged by the trace monitor when it comes up itself
+	}
+	docCmp := make([]c06Event, len(evs))
+	for i, e := range evs {
+		docCmp[i] = c06Event{Type: e.Type, Begin: e.Begin, End: e.End}
+	}
+	return cs, c06Cross("schema", emb, docCmp, pos, true)
 }
 
 // c06ApplyInserts builds the embedded text and the offset map old → new.
@@ -604,6 +753,7 @@ type c06Case struct {
 	Schedule []byte   `json:"schedule,omitempty"`
 }
 
+const c06RewindOK = "Len() / Check() succeed and the stream afterwards is the complete stream or the continuation"
 const c06LockstepOK = "every document read by turns delivers the events it delivers read alone"
 
 const c06EventsOK = "event stream describes the text"
@@ -784,6 +934,24 @@ func c06Run(c *mon.Ctx, unit int) {
 				}
 			}
 		}
+		// partial read, Len() / Check() on the same object, then the rest
+		if k%3 == 1 && len(text) <= 600 && len(evs) > 0 {
+			kk, useLen := r.Range(1, len(evs)), r.Bool()
+			c.Eval(1)
+			counts["partial reads followed by Len() / Check() and a drain"]++
+			if d := c06Rewind(text, kk, useLen); d != "" {
+				counts["rewind violations"]++
+				fails++
+				if fails <= 5 {
+					sched := []byte{byte(kk), byte(kk >> 8), 0}
+					if useLen {
+						sched[2] = 1
+					}
+					c.Violate("rewind", c06Case{Hex: hex.EncodeToString(text), Text: strconv.Quote(string(text)), Schedule: sched}, c06RewindOK, d,
+						"a Document read in part does not answer Len() / Check() or does not deliver a sound stream afterwards")
+				}
+			}
+		}
 		if mode == 0 || c06SchemaEvents == nil {
 			continue
 		}
@@ -822,6 +990,19 @@ func c06Run(c *mon.Ctx, unit int) {
 						c.Violate("cross", c06Case{Hex: hex.EncodeToString(text), Text: strconv.Quote(string(text)), Scanner: sc}, c06CrossOK, d,
 							"the "+sc+" scanner and the document scanner disagree on plain JSON")
 					}
+				}
+			}
+		}
+		// pretty layout with annotations and comments at the line ends
+		if r.Chance(1, 3) && len(text) <= 1500 {
+			cs, d := c06PrettyEmbedded(r, text, root)
+			c.Eval(1)
+			counts["cross-scanner comparisons: schema (pretty layout with annotations and comments)"]++
+			if d != "" {
+				counts["cross-scanner violations: schema (pretty, annotated)"]++
+				fails++
+				if fails <= 5 {
+					c.Violate("cross-embedded", cs, c06CrossOK, d, "the schema scanner's events outside the annotations differ from the document scanner's events for that JSON")
 				}
 			}
 		}
@@ -872,6 +1053,21 @@ func c06ReplayEvents(raw json.RawMessage) string {
 		return check + ": " + problem
 	}
 	return c06EventsOK
+}
+
+func c06ReplayRewind(raw json.RawMessage) string {
+	var cs c06Case
+	if err := json.Unmarshal(raw, &cs); err != nil {
+		return "bad replay: " + err.Error()
+	}
+	text, err := hex.DecodeString(cs.Hex)
+	if err != nil || len(cs.Schedule) != 3 {
+		return "bad replay"
+	}
+	if d := c06Rewind(text, int(cs.Schedule[0])|int(cs.Schedule[1])<<8, cs.Schedule[2] == 1); d != "" {
+		return d
+	}
+	return c06RewindOK
 }
 
 func c06ReplayLockstep(raw json.RawMessage) string {
@@ -935,6 +1131,8 @@ func init() {
 			"stack discipline, exact literal/key/object/array spans and begin offsets, containment of value/item wrappers in their slot, and equality of the value rebuilt from events alone with json.Compact(text). " +
 			"Cross-scanner (hook): for texts without exponent numerals the schema scanner (normal and length mode) and, for arrays of distinct scalars, the enum scanner (both modes) must deliver the same (type, begin, end) list, " +
 			"new-line events removed; also with the JSON embedded among # comments (schema) / inline annotations (enum), positions mapped. " +
+			"Rewind: a third of the texts is read in part (1..n lexemes), then Len() or Check() is called on the same object and the document is drained: both calls succeed and what follows is the complete stream or the exact continuation. " +
+			"Pretty layout: the value laid out one member per line with annotations (rules, notes, multi-line form) and user comments at the line ends where the notation allows them; the schema scanner's events outside the annotations equal the document scanner's. " +
 			"Lockstep: every fourth text, the last two or three texts are read by turns (alternating or random schedule of NextLexeme calls on separate Document objects) and each stream must equal the stream of the same text read alone. " +
 			"Non-trivial = text with at least 3 values; distinct = hash of the text.",
 		Assumptions: []string{
@@ -945,7 +1143,7 @@ func init() {
 		Units: func(tier string, seed uint64) int { u, _ := c06Sizes(tier); return u },
 		Run:   c06Run,
 		Replay: map[string]func(json.RawMessage) string{
-			"events": c06ReplayEvents, "cross": c06ReplayCross, "cross-embedded": c06ReplayCross, "lockstep": c06ReplayLockstep,
+			"events": c06ReplayEvents, "cross": c06ReplayCross, "cross-embedded": c06ReplayCross, "lockstep": c06ReplayLockstep, "rewind": c06ReplayRewind,
 		},
 		Final: func(ev *mon.Evidence) error {
 			if n := ev.Counters[c06BugCounter]; n > 0 {
